@@ -166,10 +166,6 @@ def run(chk):
     from .C08 import varstats_section
     for i in range(4):
         chk.section(f"variable-stats-{i}", lambda i=i: varstats_section(chk, i, 4))
-    chk.section("analyses", lambda: analyses(chk))
-
-
-def analyses(chk):
     e = mk_engine(chk)
     e.elems = {"BB": EBB, "Var": EVAR, "Node": ENODE}
     e.opaque_attr["BB"] = bb_attr
